@@ -45,7 +45,11 @@ def draw_topology(rng, n_vms=None, static_in_range=False, min_prefix=8, max_pref
             width = rng.randint(1, min(hi_max, rng.choice([1, 2, 3, 8, 100])))
             lo = rng.randint(1, max(1, hi_max - width + 1))
             hi = min(hi_max, lo + width - 1)
-        topo["subnets"].append({"net": str(network), "range": [lo, hi]})
+        entry = {"net": str(network), "range": [lo, hi]}
+        if size >= 256 and rng.random() < 0.3:
+            # no range configured: the code's default pool of host numbers 100-200
+            entry = {"net": str(network), "range": [100, 200], "default_range": True}
+        topo["subnets"].append(entry)
     for index in range(n_vms):
         vm_name = f"vm{index + 1}"
         nics = {}
@@ -90,7 +94,8 @@ def topology_params(topo):
             params[f"ip_{nic}_{vm_name}"] = spec["ip"]
             params[f"netmask_{nic}_{vm_name}"] = str(network.netmask)
             params[f"netdst_{nic}_{vm_name}"] = f"virbr{spec['subnet']}"
-            params[f"range_{nic}_{vm_name}"] = "%d-%d" % tuple(subnet["range"])
+            if not subnet.get("default_range"):
+                params[f"range_{nic}_{vm_name}"] = "%d-%d" % tuple(subnet["range"])
             if topo.get("with_gateway"):
                 # what moving a subnet to another address needs: a gateway inside the subnet and a guest type whose nic can be reconfigured (only windows guests are supported)
                 params[f"ip_provider_{nic}_{vm_name}"] = str(network.network_address + 1)
